@@ -16,6 +16,7 @@ ID = "C02"
 LEVEL = "exploration"
 QUICK_SHARDS = 4
 MIN_NONTRIVIAL = 50
+FUZZ_RUNS = 160000     # thorough tier: atheris executions (all children)
 RULE = (
     "Ordered pairs of graphs with fully specified parities from five "
     "sources: (independent) two draws over one tiny universe (n<=6 atoms, "
@@ -228,4 +229,4 @@ def run(ctx):
         ctx.note(case, nt, labs)
         check_case(ctx, case)
 
-    ctx.hyp("c02", S.tapes(1200).map(gen), check, n, shrinker=shrink)
+    ctx.hyp("c02", S.mapped(1200, gen), check, n, shrinker=shrink)
